@@ -114,6 +114,21 @@ def gen_selector_vals(rng, cur, count, dyadic, focus=None):
     return out
 
 
+# What a caller gets by leaving an optional argument out.  Read ONCE from the class docstrings / signatures of
+# inferno/neural/synapses/{current,expcurrent}.py and hard-coded here (never read from the code at run time):
+#   delay 0.0, interp_tol 0.0, current_overbound 0.0, spike_overbound False, batch_size 1, inplace False - docstring and
+#   signature agree, for __init__ and partialconstructor of all four classes;
+#   interp_mode (DeltaCurrent, DeltaPlusCurrent): "previous" - docstring and signature agree;
+#   spike_interp_mode (SingleExponentialCurrent, DoubleExponentialCurrent): the SIGNATURES of __init__ and
+#   partialconstructor say "previous", their four docstrings say ``"nearest"``.  The harness follows the signatures
+#   ("previous": the value both construction paths and the two delta classes share); the docstring discrepancy is reported
+#   to the lead, not enforced.  LinearDense's own defaults (delay=None -> maximum delay 0, batch_size=1) apply when the
+#   synapse is built by a connection.
+DEFAULTS = {"mode": 0, "tol": 0.0, "cur_ob": 0.0, "spk_ob": False, "delay": 0.0, "batch": 1, "inplace": False}
+OMITTABLE = {"direct": ["mode", "tol", "cur_ob", "spk_ob", "delay", "batch", "inplace"],
+             "partial": ["mode", "tol", "cur_ob", "spk_ob", "inplace"],
+             "connection": ["mode", "tol", "cur_ob", "spk_ob", "inplace", "delay", "batch"]}
+
 DELAY_MULS = [0, 0, 0, 1, 2, 3, 2.5, 1.5, 4, 0.5, 2.875, 2.25, 0.75, 1.125]
 
 
@@ -187,10 +202,19 @@ def gen_case(rng: random.Random, idx: int):
         "inplace": rng.random() < 0.5, "float_in": rng.random() < 0.25, "nonbinary": False, "dyadic": dyadic,
         "malformed": malformed,
         # how the synapse is built: directly, through Class.partialconstructor(...), or by a connection's constructor
-        "build": rng.choice(["direct", "partial", "partial", "connection"]),
+        "build": rng.choice(["direct", "direct", "partial", "partial", "connection"]),
     }
     if case["float_in"] and rng.random() < 0.3:
         case["nonbinary"] = True
+    # optional arguments left out (the documented defaults are expected instead)
+    case["omit"] = []
+    if rng.random() < (0.7 if case["build"] == "direct" else 0.4):
+        om = [a for a in OMITTABLE[case["build"]] if rng.random() < (0.6 if a == "mode" else 0.35)] \
+            or [rng.choice(OMITTABLE[case["build"]])]
+        for a in om:
+            case[a] = DEFAULTS[a]
+        case["omit"] = om
+        delay, batch, tol = case["delay"], case["batch"], case["tol"]
     if case["build"] == "connection":      # LinearDense gives its synapse the flattened input shape
         shape = [nel(shape)]
         case["shape"] = shape
@@ -258,6 +282,31 @@ def gen_cases(rng, n):
     return [gen_case(rng, i) for i in range(n)]
 
 
+def default_probe_cases():
+    """always run: every class x construction path with every optional argument except the maximum delay left out,
+    used for a few steps and read back between steps (where the interpolation mode shows), on the grid and beyond"""
+    out = []
+    sels = [0.25, 0.5, 0.75, 1.25, 1.75, 2.0, 0.0, 3.0, 1.0, 2.5]
+    trains = [[1.0, 0.0], [0.0, 1.0], [1.0, 1.0], [0.0, 0.0], [1.0, 0.0]]
+    for cls in range(4):
+        for build in ("direct", "partial", "connection"):
+            om = [a for a in OMITTABLE[build] if a not in ("delay", "batch")] + (["batch"] if build != "partial" else [])
+            ops = []
+            for i, x in enumerate(trains):
+                ops.append(["step", [1, 2], list(x), [[0.5, -1.25]] if cls == 1 and i % 2 else []])
+                if i >= 2:
+                    ops.append(["spk_at", [1, 2, len(sels) // 2], list(sels)])
+                    ops.append(["cur_at", [1, 2, len(sels) // 2], list(sels)])
+            case = {"cls": cls, "shape": [2], "batch": 1, "dt": 1.0, "delay": 2.0, "Q": 2.0, "tau": 5.0, "tr": 0.5,
+                    "mode": 1, "tol": 0.25, "cur_ob": 7.5, "spk_ob": True, "inplace": True,
+                    "float_in": False, "nonbinary": False, "dyadic": True, "malformed": False,
+                    "build": build, "omit": om, "ops": ops}
+            for a in om:
+                case[a] = DEFAULTS[a]
+            out.append(case)
+    return out
+
+
 def exhaustive_cases(maxlen=4):
     """small scope, thorough tier: every spike train of length <= maxlen for one synapse x the 4 classes x both
     interpolation modes, read back at every step of the grid, between steps and beyond the delay (delay = 2 dt)"""
@@ -277,7 +326,7 @@ def exhaustive_cases(maxlen=4):
                     out.append({"cls": cls, "shape": [1], "batch": 1, "dt": 1.0, "delay": 2.0, "Q": 2.0, "tau": 5.0, "tr": 0.5,
                                 "mode": mode, "tol": 0.25, "cur_ob": 7.5, "spk_ob": True, "inplace": bool(L % 2),
                                 "float_in": False, "nonbinary": False, "dyadic": True, "malformed": False,
-                                "build": ["direct", "partial", "connection"][L % 3], "ops": ops})
+                                "build": ["direct", "partial", "connection"][L % 3], "omit": [], "ops": ops})
     return out
 
 
@@ -703,6 +752,7 @@ def run(ctx):
     rng = random.Random(ctx["seed"])
     n = 260 if ctx["tier"] == "quick" else 4000
     corpus = load_corpus()
+    corpus = corpus + default_probe_cases()
     cases = corpus + gen_cases(rng, n)
     if ctx["tier"] == "thorough":
         cases += exhaustive_cases(4)
@@ -738,7 +788,8 @@ def run(ctx):
                 "grid, off the grid, at and around +-tolerance, at / beyond the maximum delay, negative; clear) over the 4 "
                 "classes x dt in {1,.5,.25,1.3,.1,.7} x max delay in {0,.5,1,1.5,2,2.5,3,4} dt x tol x overbound value/None x "
                 "interpolation mode x batch 1-3 x 5 shapes x inplace x built directly / through partialconstructor / by a LinearDense "
-                "constructor (every keyword non-default somewhere); each case is run with both inplace settings; every 6th "
+                "constructor (every keyword non-default somewhere; in ~40% of the cases a random subset of the optional arguments is left "
+                "out and the documented defaults are expected); each case is run with both inplace settings; every 6th "
                 "case from a malformed stream (wrong input shape, wrong selector rank); non-trivial = >=2 steps and >=2 op "
                 "kinds; distinct by full case text"
                 + ("; plus every spike train of length <= 4 x class x interpolation mode read back on / off the grid" if ctx["tier"] == "thorough" else ""),
@@ -746,6 +797,7 @@ def run(ctx):
         "class_distribution": dict(Counter(CLSN[c["cls"]] for c in cases)),
         "undelayed_cases": sum(1 for c in cases if c["delay"] == 0),
         "build_distribution": dict(Counter(c.get("build", "direct") for c in cases)),
+        "omitted_argument_distribution": dict(Counter(a for c in cases for a in c.get("omit", []))),
         "cases_with_configuration_changes": sum(1 for c in cases if any(o[0].startswith("set_") for o in c["ops"])),
         "selector_values_queried": nq,
         "samples": cases[len(corpus):len(corpus) + 2],
